@@ -78,15 +78,17 @@ def gen_constants(rng, nmax=3, exclude=()):
     return out
 
 
-def gen_cases(rng, nargs=(1, 4), ncases=(1, 8), names=None, per_arg_types=None):
+def gen_cases(rng, nargs=(1, 4), ncases=(1, 8), names=None, per_arg_types=None, exotic=False):
     """Distinct cases over k arguments; per argument a homogeneous (sortable) value type.
     Values are drawn from a small pool per argument so that cases share coordinates."""
     k = rng.randint(*nargs)
     names = list(names)[:k] if names else rng.sample(ARG_POOL, k)
     pools = {}
     for a in names:
-        vt = (per_arg_types or {}).get(a) or gen_vtype(rng)
-        pools[a] = gen_values(rng, rng.randint(1, 4), vt)
+        vt = (per_arg_types or {}).get(a) or gen_vtype(rng, exotic=exotic)
+        if vt == "tuple":
+            vt = "npint"          # (heterogeneous tuples are not sortable: no specified axis order)
+        pools[a] = gen_values(rng, rng.randint(1, 2) if vt == "bool" else rng.randint(1, 4), vt)
     allc = list(itertools.product(*[pools[a] for a in names]))
     rng.shuffle(allc)
     n = min(len(allc), rng.randint(*ncases))
